@@ -25,6 +25,9 @@ Dur(s)  == [t |-> "dur", s |-> s, g |-> "L"]
 DurT(s) == [t |-> "dur", s |-> s, g |-> "T"]
 Str(s)  == [t |-> "str", s |-> s, g |-> "L"]
 StrT(s) == [t |-> "str", s |-> s, g |-> "T"]
+\* x: the other kind of quote is written with a backslash too ( 'say \"hi\"' , "o\'brien" ): the lexer accepts both escapes in both
+StrX(s) == [t |-> "str", s |-> s, g |-> "L", x |-> TRUE]
+QIdX(s) == [t |-> "id",  s |-> s, g |-> "L", q |-> TRUE, x |-> TRUE]
 Re(s)   == [t |-> "re",  s |-> s, g |-> "L"]
 ReT(s)  == [t |-> "re",  s |-> s, g |-> "T"]
 Bp(s)   == [t |-> "bp",  s |-> s, g |-> "L"]
